@@ -26,7 +26,47 @@ pruning) is sound and a failure to prove is never turned into a pass.
 from fractions import Fraction
 import itertools
 
-TYPES = {}  # term -> rust type string (for range facts)
+class TypeReg:
+    """term -> rust type string (for range facts).  Terms such as `a0`, `a0.start` or `cast#1` mean different things in
+    different functions, so every Interp owns a dictionary (`active` while it runs and until another one starts); a lookup
+    prefers it and falls back to `spec`, where registrations made by rule code accumulate (latest wins)."""
+
+    def __init__(self):
+        self.spec = {}
+        self.active = None
+        self.running = 0     # > 0 while an Interp explores paths: registrations then stay in its own dictionary
+
+    def get(self, k, d=None):
+        a = self.active
+        if a is not None and k in a:
+            return a[k]
+        return self.spec.get(k, d)
+
+    def setdefault(self, k, v):
+        if not self.running:
+            self.spec[k] = v
+        a = self.active
+        if a is not None:
+            return a.setdefault(k, v)
+        return v
+
+    def __contains__(self, k):
+        return (self.active is not None and k in self.active) or k in self.spec
+
+    def __getitem__(self, k):
+        a = self.active
+        if a is not None and k in a:
+            return a[k]
+        return self.spec[k]
+
+    def __setitem__(self, k, v):
+        if not self.running:
+            self.spec[k] = v
+        if self.active is not None:
+            self.active[k] = v
+
+
+TYPES = TypeReg()
 
 INT_RANGES = {
     'u8': (0, 2**8 - 1), 'u16': (0, 2**16 - 1), 'u32': (0, 2**32 - 1), 'u64': (0, 2**64 - 1),
